@@ -984,6 +984,11 @@ static void runHrpdac(const Case &c) {
       StringDictionary *d2 = StringDictionaryHASHRPDAC::load(ss);
       delete d; d = (StringDictionaryHASHRPDAC *)d2;
       emit("RQ reloaded");
+    } else if (op[0] == "hi") { // the saved image with the table header it must carry
+      string occ;
+      for (size_t i = 0; i < d->hash->tsize; i++) occ += d->hash->b_ht->access(i) ? '1' : '0';
+      emit("HI img=%s el=%zu ml=%u ts=%zu n=%zu occ=%s", hex(saveImage(d)).c_str(), (size_t)d->numElements(), (uint)d->maxLength(),
+           (size_t)d->hash->tsize, (size_t)d->hash->n, occ.empty() ? "-" : occ.c_str());
     } else if (op[0] == "hd") { // hd <query hex,...|->
       RePair *rp = d->rp;
       string rules, seqs, loc, qa, occ;
